@@ -16,6 +16,7 @@ var redirectTable = map[string]string{
 	"(*bufio.Scanner).Scan":                           "ModelScannerScan",
 	"(*bufio.Scanner).Text":                           "ModelScannerText",
 	"(*bufio.Scanner).Err":                            "ModelScannerErr",
+	"(*bufio.Scanner).Buffer":                         "ModelScannerBuffer",
 	"github.com/jhillyerd/enmime/v2.DecodeHeaders":    "ModelEnmimeDecodeHeaders",
 	"github.com/jhillyerd/enmime/v2.ParseAddressList": "ModelEnmimeParseAddressList",
 	"(net/textproto.MIMEHeader).Get":                  "ModelMIMEHeaderGet",
